@@ -12,13 +12,14 @@
 //
 // Case: {"src": text, "extra": [["p1",1],..] predicates to declare to the analysis
 //        although no clause defines them, "limit": n, "timeout_ms": n}
-// Out:  {"stage": "parse"|"analysis"|"ok", "msg", "rule", "perm": [..], "nprem": n,
+// Out:  {"stage": "parse"|"analysis"|"apanic"|"ok", "msg", "rule", "perm": [..], "nprem": n,
 //        "err": ""|"eval"|"limit"|"panic"|"timeout", "emsg", "facts": [..], "nonground": [..]}
 package main
 
 import (
 	"encoding/json"
 	"fmt"
+	"runtime/debug"
 	"sort"
 	"strings"
 	"time"
@@ -71,6 +72,21 @@ func constJSON(c ast.Constant) any {
 			return nil
 		}, func() error { return nil })
 		return []any{"list", elems}
+	case ast.MapShape:
+		// built-in stream (:match_entry): entries in the order of the constant
+		ents := []any{}
+		c.MapValues(func(k, v ast.Constant) error {
+			ents = append(ents, []any{constJSON(k), constJSON(v)})
+			return nil
+		}, func() error { return nil })
+		return []any{"map", ents}
+	case ast.StructShape:
+		ents := []any{}
+		c.StructValues(func(k, v ast.Constant) error {
+			ents = append(ents, []any{constJSON(k), constJSON(v)})
+			return nil
+		}, func() error { return nil })
+		return []any{"struct", ents}
 	}
 	return []any{"other", c.String()}
 }
@@ -117,7 +133,21 @@ func runC04(in json.RawMessage) (any, error) {
 	for _, cl := range unit.Clauses {
 		delete(extra, cl.Head.Predicate)
 	}
-	info, err := analysis.AnalyzeOneUnit(unit, extra)
+	// a panic inside analysis is reported as its own stage (known finding N24 lives in
+	// the bounds checker); the property speaks about evaluation
+	info, err, apanic := func() (pi *analysis.ProgramInfo, e error, pan string) {
+		defer func() {
+			if p := recover(); p != nil {
+				pan = fmt.Sprintf("%v\n%s", p, debug.Stack())
+			}
+		}()
+		pi, e = analysis.AnalyzeOneUnit(unit, extra)
+		return
+	}()
+	if apanic != "" {
+		out.Stage, out.Msg = "apanic", apanic
+		return out, nil
+	}
 	if err != nil {
 		out.Stage, out.Msg = "analysis", err.Error()
 		return out, nil
